@@ -36,7 +36,7 @@ func storesInto(w *World, e *termEnv, fn *ssa.Function, pkgPath, typeName string
 }
 
 func propC11(w *World, r *Report) {
-	r.Explanation = "Decided clause — wiring/provenance only: (H1) each cptv.Header field is fed from its specified source (device name/id, preview-secs, camera fps, brand/model/serial/firmware arguments, location fields, YAML of the motion config plus 'triggeredthresh: <threshold argument>', background frame argument, resolution through the CameraSpec handed to NewFileWriter), and all three recorder construction sites in the connection handler pass headerInfo's Brand/Model/CameraSerial/Firmware in that order; (H2) every HeaderInfo getter returns the field that ReadHeaderInfo fills from the like-named header key; (H3) ParseConfig, recorder.NewConfig, motion.NewConfig and throttle.NewConfig copy each setting from the like-named go-config field of the right config section; (H4) the connection handler loads the motion config for headerInfo.Model() before any recorder or the processor is built, all of them share that config object, and LoadMotionConfig stores motion.NewConfig's result; (H5) the parser selection maps (flir, lepton3|lepton3.5) to the Lepton parser, (flir, boson) to the Boson parser and everything else to 'cannot handle'. Rule: provenance normal forms compared against a table written from the statement."
+	r.Explanation = "Decided clause — wiring/provenance only: (H1) each cptv.Header field is fed from its specified source (device name/id, preview-secs, camera fps, brand/model/serial/firmware arguments, location fields, YAML of the motion config plus 'triggeredthresh: <threshold argument>', background frame argument, resolution through the CameraSpec handed to NewFileWriter), all three recorder construction sites in the connection handler pass headerInfo's Brand/Model/CameraSerial/Firmware in that order, and the recorder's WriteFrame hands every frame to the CPTV writer once and returns its error; (H2) every HeaderInfo getter returns the field that ReadHeaderInfo fills from the like-named header key; (H3) ParseConfig, recorder.NewConfig, motion.NewConfig and throttle.NewConfig copy each setting from the like-named go-config field of the right config section, a section / sub-loader / window that fails aborts loading with its error, the configuration is read from the configured directory, and trigger-frames counts from the end of the previous recording; (H4) the connection handler loads the motion config for headerInfo.Model() before any recorder or the processor is built, all of them share that config object, and LoadMotionConfig stores motion.NewConfig's result; (H5) the parser selection maps (flir, lepton3|lepton3.5) to the Lepton parser, (flir, boson) to the Boson parser and everything else to 'cannot handle'. Rule: provenance normal forms compared against a table written from the statement."
 	r.RuleText = "obligation per (rule, field / key / call site)"
 	r.Assumptions = []string{"pixel/telemetry fidelity of the CPTV codec and the YAML encoders are dependencies and data dependent: not decided",
 		"go-config's struct tags map TOML keys to the named fields (dependency)", "cross-reference (not a verdict): the error of LoadMotionConfig is dropped by the connection handler"}
